@@ -40,25 +40,38 @@ def gen_case(rng, ctx):
         # hostile class: several distinct input rankings at the extreme score 0 (ties are free, rankings differ by ties)
         cls, ds = gen.dataset(rng, cls="D13", nmax=7, mmax=6)
         ds = libx.normalise_raw(ds)
-        return {"ds": ds, "scheme": gen.scheme_free_ties(rng), "dcls": cls, "scls": "S9", "one": rng.random() < 0.3}
+        return {"ds": ds, "scheme": gen.scheme_free_ties(rng), "scheme2": gen.scheme(rng, "S1 S11")[1], "dcls": cls,
+                "scls": "S9", "one": rng.random() < 0.3}
     if which < 0.25:
         scls, sch = "unifying-multiple", gen.scale(ref.PRESETS["unifying"], rng.choice([1.0] + gen.SCALES + gen.ODD_SCALES))
     elif which < 0.5:
         scls, sch = "unifying-lookalike", unifying_lookalike(rng)
     else:
         scls, sch = gen.scheme(rng, "S1 S2 S3 S4 S5")
-    return {"ds": ds, "scheme": sch, "dcls": cls, "scls": scls, "one": rng.random() < 0.5}
+    sch2 = gen.scheme(rng, "S1 S2 S3 S11 S9")[1] if rng.random() < 0.7 else None
+    return {"ds": ds, "scheme": sch, "scheme2": sch2, "dcls": cls, "scls": scls, "one": rng.random() < 0.5}
 
 
 def check_case(case, ctx):
-    ds, sch, one = case["ds"], case["scheme"], case["one"]
+    """the same Dataset object (and, through algos.run_config, the same PickAPerm object) is aggregated under the case's
+    scheme and then under a second, non-proportional scheme: state kept from the first call must not leak"""
     common.set_case(ctx, case)
-    dataset = libx.mk_dataset(ds)
+    dataset = libx.mk_dataset(case["ds"])
+    judge(case, ctx, dataset, case["scheme"], first=True)
+    if case.get("scheme2") is not None:
+        ctx.count("second_scheme_on_same_objects")
+        judge(case, ctx, dataset, case["scheme2"], first=False)
+
+
+def judge(case, ctx, dataset, sch, first):
+    ds, one = case["ds"], case["one"]
     scheme = libx.mk_scheme(sch)
     complete = ref.is_complete(ds)
     unifying = ref.proportional(sch, ref.PRESETS["unifying"])
     must_refuse = (not complete) and not unifying
     sub = {"ds": ds, "scheme": sch, "one": one}
+    if not first:
+        sub["after_scheme"] = case["scheme"]
     st, cons, _ = algos.run_config("PickAPerm", dataset, scheme, one, 0)
     if must_refuse:
         ctx.count("refusals_expected")
@@ -129,6 +142,8 @@ def reach(counters, tier, info):
     for name, key, need in [("accepted cases judged", "accepted", 1000 * k), ("refusals expected", "refusals_expected", 300 * k),
                             ("look-alike refusals expected", "lookalike_refusals_expected", 100 * k),
                             ("all-requested cases with >= 2 distinct minima", "several_minima", 100 * k),
+                            ("second calls under another scheme on the same Dataset / PickAPerm objects",
+                             "second_scheme_on_same_objects", 1500 * k),
                             ("all-requested cases with >= 2 distinct minima of score 0", "several_minima_at_score_zero", 40 * k)]:
         v = counters.get(key, 0)
         out.append({"name": name, "observed": v, "required": need, "ok": v >= need})
